@@ -117,12 +117,12 @@ static const PmcConfig CFG[] = {
     {"M0:ppp|ooo",    3, {2,4}, {0,0}, {0,0}, {0,0}, "more pushes than slots: full / wrap of the turn marks"},
     {"Mw:sss|rrr",    3, {2,4}, {0,0}, {0,0}, {0,0}, "indices wrap through 2^64"},
     {"mw:sss|rrr",    3, {2,4}, {0,0}, {0,0}, {0,0}, "8-bit marks"},
-    {"M0:pp|pp|oooo", 3, {2,3}, {0,0}, {0,0}, {0,0}, "two producers"},
+    {"M0:pp|pp|oooo", 3, {1,3}, {0,0}, {0,0}, {0,0}, "two producers"},
     {"M0:ss|s|rr|r",  3, {1,3}, {0,0}, {0,0}, {0,0}, "two producers, two consumers"},
     {"M0:sp|ss|r|ro",2, {1,3}, {0,0}, {0,0}, {0,0}, "mix of try and blocking operations (blocking receives never outnumber the blocking sends)"},
     {"B0:pp|oo",      3, {3,6}, {0,0}, {0,0}, {0,0}, ""},
     {"B0:P|p|OO",     3, {2,4}, {0,0}, {0,0}, {0,0}, "batch push racing with single push: ordered publication"},
-    {"Bw:ss|ss|rrrr", 3, {2,3}, {0,0}, {0,0}, {0,0}, ""},
+    {"Bw:ss|ss|rrrr", 3, {1,3}, {0,0}, {0,0}, {0,0}, ""},
     {"B0:Pp|O|O",     3, {2,3}, {0,0}, {0,0}, {0,0}, "two consumers"},
     {"S0:ppp|ooo",    3, {3,6}, {0,0}, {0,0}, {0,0}, ""},
     {"Sw:sss|rrr",    3, {3,6}, {0,0}, {0,0}, {0,0}, ""},
